@@ -67,7 +67,7 @@ def value(ann: str, pname: str, idx: int, cls: str):
             return {"falsy": 0.0, "typical": [0.0625, 2.5, 0.1875, 1.0009765625][idx % 4], "extreme": 1048576.5 + idx}[cls]
         return {"falsy": 0.0, "typical": 0.125 * (idx + 1) + 0.0625, "extreme": f32(2.0 ** (100 + idx))}[cls]
     if base == "str":
-        return {"falsy": "", "typical": f"a{idx}", "extreme": "ü☃" * 40 + str(idx)}[cls]
+        return {"falsy": "", "typical": f"a{idx}", "extreme": "ü☃" * 200 + "x" * 300 + str(idx)}[cls]
     raise ValueError((ann, pname))
 
 
